@@ -589,8 +589,10 @@ def check_C14(ctx):
     plan = [("typesquick", 0, 1), ("combo", 0, 3), ("num", 0, 2), ("bank", 0, 1), ("nodes", 0, 1), ("nodes2", 0, 2),
             ("pathx", 3, 1), ("path", 4, 1), ("pseg", 0, 1), ("pbig", 0, 1), ("pdeep", 7, 1)]
     if thorough:
-        plan = [("typesfull", 0, 1), ("typesquick", 0, 1), ("combo", 0, 4), ("num", 0, 3), ("bank", 0, 2), ("nodes", 0, 2), ("nodes2", 0, 3),
+        plan = [("typesfull", 0, 1), ("typesquick", 0, 1), ("combo", 0, 4), ("num", 0, 2), ("bank", 0, 2), ("nodes", 0, 2), ("nodes2", 0, 3),
                 ("pathx", 4, 1), ("path", 5, 1), ("pathr", 6, 1), ("pseg", 0, 2), ("pbig", 0, 2), ("pdeep", 8, 1)]
+    # (three-line histories over the 41-letter numeric alphabet - sliders with 9000 nodes among them - print 5 GB of cases and
+    #  exhaust TLC's heap while serialising them; what carries over between lines is exercised by `combo` at four lines)
     for (a, n, ml) in plan:
         f = hitobj_cases(ctx, a, n, ml)
         summ = harness(ctx, ["hitobj", "replay", "--prop", "C14", "--spellings", "2"], cases_file=f, name="hitobj-" + a,
